@@ -1,10 +1,258 @@
-import JP.Driver
-import JP.Impl.Den
+import JP.Lemmas.LegacyMerge
+import JP.Lemmas.LegacyEqualText
+import JP.Lemmas.LegacyComposeLaw
 
-/-! # Property C19 — theorems (see DESIGN.md §6) -/
+/-!
+# C19 — the legacy (v4) `MergePatch`, `MergeMergePatches` and `Equal`
+
+* `merge_refines`, `mergeDocs_refines`, `pruneNulls_spec`, `doMergePatch_refines`: the legacy
+  `merge` / `mergeDocs` / `pruneNulls` model computes RFC 7396 `Spec.merge` for non-null
+  documents and object or array patches with duplicate-free member names.  `Legacy.den` lists
+  the members of a parsed object (a bare Go map, no order) in the order of the model's
+  association list; for *that* choice the result is the specification's **as an ordered value**,
+  hence also modulo `Value.eqv`.  What `json.Marshal` prints lists the members sorted by name.
+* `mergeMerge_refines`: the `mergeMerge` mode against `Spec.compose` under `Spec.compatible`;
+  `composition_law` derives the law for the legacy function from the specification-level law
+  (the hypothesis `Legacy.ComposeLaw`, which is proved in `JP/Props/C19law.lean` from
+  `JP.C07.compose_law_strong`; that file lives in a lemma family that cannot be imported together
+  with this one).
+* `equal_iff`: on trees whose string values are spelled plainly.  **The statement with only
+  `NoEscapes` is false** for arbitrary trees and also for parsed texts: invalid UTF-8 decodes to
+  U+FFFD, so `["\xff"]` and `["\xfe"]` denote equal values but differ as bytes (example
+  below); `equal_iff_partial` adds "valid UTF-8" (`CstUtf8`) and "accepted by the grammar"
+  (`WFC`, automatic for parsed texts).
+
+Invariants: `Legacy.WF` (names duplicate-free, hereditarily, no nil map inside) and `Legacy.MOK`
+(no raw `null` inside a parsed object); both hold for whatever `doMergePatch` builds.
+-/
 
 namespace JP
 namespace C19
+open Value Legacy
+
+/-! ## merge -/
+
+/-- the recursive `merge` of a node with a raw patch *is* the specification (ordered equality for
+the order `den` picks, hence `eqv`), never panics, and re-establishes the invariants -/
+theorem merge_refines (cur : Node) (p : Cst) (hc : WF cur = true) (hm : MOK cur)
+    (hp : p.valueOf.noDup = true) (hn : p.isNullLit = false) :
+    ∃ r, mergeNC false cur p = some r ∧ WF r = true ∧ MOK r ∧
+      den r = Spec.merge (den cur) p.valueOf ∧
+      Value.eqv (den r) (Spec.merge (den cur) p.valueOf) = true := by
+  obtain ⟨r, h0, h1, h2, h3⟩ := mergeNC_den p cur hc hm hp hn
+  refine ⟨r, h0, h1, h2, h3, ?_⟩
+  rw [← h3]; exact eqv_refl_E _ (noDup_den _ h1)
+
+/-- `mergeDocs` on a parsed object -/
+theorem mergeDocs_refines (ob : NMembers) (pms : List (Bytes × Cst))
+    (hw : WF (.doc ob) = true) (hm : MOKM ob) (hp : (Cst.obj pms).valueOf.noDup = true) :
+    ∃ ob', mergeDocsC false (some ob) pms = some ob' ∧ WF (.doc ob') = true ∧ MOKM ob' ∧
+      den (.doc ob') = .obj (Spec.mergeMs (denM ob) (Cst.valueOfM pms)) := by
+  simp only [Cst.valueOf, noDup, Bool.and_eq_true] at hp
+  obtain ⟨ob', r0, r1, r2, r3⟩ := mergeDocsC_den pms ob hw hm hp.1 hp.2
+  exact ⟨ob', r0, r1, r2, by simp only [den, r3]⟩
+
+/-- `pruneNulls`: a new object value is stored with its own null members dropped, recursively
+through objects (arrays inside are left untouched) — exactly `MergePatch(null, c)` -/
+theorem pruneNulls_spec (c : Cst) (h : c.valueOf.noDup = true) (hn : c.isNullLit = false) :
+    WF (pruneC c) = true ∧ den (pruneC c) = Spec.merge .null c.valueOf := by
+  have ⟨h1, _, h3⟩ := pruneC_den c h hn
+  exact ⟨h1, h3⟩
+
+/-- **`MergePatch` on syntax trees**: for a non-null document and an object or array patch,
+both duplicate-free, `doMergePatch false` succeeds and marshals a well-formed node whose value
+is the RFC 7396 result -/
+theorem doMergePatch_refines (docData patchData : Bytes) (dc pc : Cst)
+    (hd : parseCst docData = some dc) (hp : parseCst patchData = some pc)
+    (hnn : dc.isNullLit = false) (hpc : (pc.isObj || pc.isArr) = true)
+    (hdd : dc.valueOf.noDup = true) (hdp : pc.valueOf.noDup = true) :
+    ∃ r, mergePatch docData patchData = .ok (marshal r) ∧ WF r = true ∧
+      den r = Spec.merge dc.valueOf pc.valueOf ∧
+      Value.eqv (den r) (Spec.merge dc.valueOf pc.valueOf) = true := by
+  obtain ⟨r, h0, h1, h2⟩ := mergeTree_den dc pc hdd hdp hpc
+  refine ⟨r, doMergePatch_eq false docData patchData dc pc hd hp hnn hpc r h0, h1, h2, ?_⟩
+  rw [← h2]; exact eqv_refl_E _ (noDup_den _ h1)
+
+/-- what the text layer has to provide for the result node `r`: the printed tree reads back, and
+its value is `den r` up to member order (`json.Marshal` sorts the members of a map by name) -/
+def PrintSpec (c : Cst) : Prop := parseCst (Cst.print c) = some c
+def CstOfSpec (r : Node) : Prop := Value.eqv (cstOf r).valueOf (den r) = true
+
+/-- with the text layer: the output parses to the RFC 7396 result up to member order -/
+theorem mergePatch_value (docData patchData : Bytes) (dc pc : Cst)
+    (hd : parseCst docData = some dc) (hp : parseCst patchData = some pc)
+    (hnn : dc.isNullLit = false) (hpc : (pc.isObj || pc.isArr) = true)
+    (hdd : dc.valueOf.noDup = true) (hdp : pc.valueOf.noDup = true)
+    (htext : ∀ r, WF r = true → den r = Spec.merge dc.valueOf pc.valueOf →
+      PrintSpec (cstOf r) ∧ CstOfSpec r) :
+    ∃ out v, mergePatch docData patchData = .ok out ∧ parseValueOf out = some v ∧
+      Value.eqv v (Spec.merge dc.valueOf pc.valueOf) = true := by
+  obtain ⟨r, h0, h1, h2, _⟩ := doMergePatch_refines docData patchData dc pc hd hp hnn hpc hdd hdp
+  have ⟨p1, p2⟩ := htext r h1 h2
+  refine ⟨marshal r, (cstOf r).valueOf, h0, ?_, ?_⟩
+  · simp only [parseValueOf, marshal]; rw [p1]; rfl
+  · rw [← h2]; exact p2
+
+/-! ## MergeMergePatches -/
+
+/-- the `mergeMerge` mode against `Spec.compose`, under `Spec.compatible` -/
+theorem mergeMerge_refines (cur : Node) (p : Cst) (hc : WF cur = true) (hm : MOK cur)
+    (hp : p.valueOf.noDup = true) (hn : p.isNullLit = false)
+    (hcomp : Spec.compatible (den cur) p.valueOf = true) :
+    ∃ r, mergeNC true cur p = some r ∧ WF r = true ∧ MOK r ∧
+      den r = Spec.compose (den cur) p.valueOf :=
+  mergeNC_compose p cur hc hm hp hn hcomp
+
+/-- `MergeMergePatches` on syntax trees (compatibility is only needed when both patches are
+objects) -/
+theorem mergeMergePatches_refines (p1Data p2Data : Bytes) (c1 c2 : Cst)
+    (h1 : parseCst p1Data = some c1) (h2 : parseCst p2Data = some c2)
+    (hnn : c1.isNullLit = false) (hpc : (c2.isObj || c2.isArr) = true)
+    (hd1 : c1.valueOf.noDup = true) (hd2 : c2.valueOf.noDup = true)
+    (hcomp : c1.isObj = true → Spec.compatible c1.valueOf c2.valueOf = true) :
+    ∃ r, mergeMergePatches p1Data p2Data = .ok (marshal r) ∧ WF r = true ∧
+      den r = Spec.compose c1.valueOf c2.valueOf := by
+  obtain ⟨r, h0, hw, hv⟩ := composeTree_den c1 c2 hd1 hd2 hpc hcomp
+  exact ⟨r, doMergePatch_eq true p1Data p2Data c1 c2 h1 h2 hnn hpc r h0, hw, hv⟩
+
+/-- **composition law for the legacy functions**, at the level of denoted values: merging the
+combined patch `MergeMergePatches(p1, p2)` builds into a document gives what merging `p1`, then
+`p2` gives, up to member order -/
+theorem composition_law (hlaw : ComposeLaw) (p1Data p2Data : Bytes) (c1 c2 : Cst)
+    (h1 : parseCst p1Data = some c1) (h2 : parseCst p2Data = some c2)
+    (hnn : c1.isNullLit = false) (hpc : (c2.isObj || c2.isArr) = true)
+    (hd1 : c1.valueOf.noDup = true) (hd2 : c2.valueOf.noDup = true)
+    (hcomp : Spec.compatible c1.valueOf c2.valueOf = true)
+    (D : Value) (hD : D.noDup = true) :
+    ∃ r, mergeMergePatches p1Data p2Data = .ok (marshal r) ∧ WF r = true ∧
+      Value.eqv (Spec.merge (Spec.merge D c1.valueOf) c2.valueOf) (Spec.merge D (den r)) = true := by
+  obtain ⟨r, h0, hw, hv⟩ := mergeMergePatches_refines p1Data p2Data c1 c2 h1 h2 hnn hpc hd1 hd2
+    (fun _ => hcomp)
+  refine ⟨r, h0, hw, ?_⟩
+  rw [hv]
+  exact hlaw _ _ D hd1 hd2 hD hcomp
+
+/-! ## Equal -/
+
+/-- `Equal` on two texts is `equal` of their syntax trees when both are well-formed -/
+theorem equal_trees (a b : Bytes) (ca cb : Cst) (ha : parseCst a = some ca) (hb : parseCst b = some cb) :
+    Legacy.equal a b = Legacy.eqCC ca cb := by
+  simp only [Legacy.equal, ha, hb]
+
+/-- tree level, the hypothesis in its sharpest form: every string *value* is spelled by a body
+that `unquote` leaves unchanged -/
+theorem equal_iff_plain (a b : Cst) (ha : a.valueOf.noDup = true) (hb : b.valueOf.noDup = true)
+    (hpa : PlainStr a = true) (hpb : PlainStr b = true) :
+    Legacy.eqCC a b = Value.eqv a.valueOf b.valueOf :=
+  Legacy.eqCC_eqv a b ha hb hpa hpb
+
+/-- **C19, `Equal`**: on syntax trees the grammar accepts, without escapes (`NoEscapes`: no
+backslash in any body), valid UTF-8, duplicate-free names.  (Stated for all roots; container
+roots are a special case.) -/
+theorem equal_iff_partial (a b : Cst) (ha : a.valueOf.noDup = true) (hb : b.valueOf.noDup = true)
+    (hea : NoEscapes a = true) (heb : NoEscapes b = true)
+    (hwa : WFC a = true) (hwb : WFC b = true) (hua : CstUtf8 a = true) (hub : CstUtf8 b = true) :
+    Legacy.eqCC a b = Value.eqv a.valueOf b.valueOf :=
+  equal_iff_plain a b ha hb (plainStr_of_noEscapes a hea hwa hua) (plainStr_of_noEscapes b heb hwb hub)
+
+/-- `Equal` on two texts: structural equality of the denoted values -/
+theorem equal_texts (a b : Bytes) (ca cb : Cst) (hpa : parseCst a = some ca) (hpb : parseCst b = some cb)
+    (ha : ca.valueOf.noDup = true) (hb : cb.valueOf.noDup = true)
+    (hea : NoEscapes ca = true) (heb : NoEscapes cb = true)
+    (hwa : WFC ca = true) (hwb : WFC cb = true) (hua : CstUtf8 ca = true) (hub : CstUtf8 cb = true) :
+    Legacy.equal a b = Value.eqv ca.valueOf cb.valueOf := by
+  rw [equal_trees a b ca cb hpa hpb]
+  exact equal_iff_partial ca cb ha hb hea heb hwa hwb hua hub
+
+/-- a partly parsed node against a raw message (what the `test` operation evaluates) -/
+theorem eqNC_iff (n : Node) (c : Cst) (hn : WF n = true) (hc : c.valueOf.noDup = true)
+    (hpn : PlainN n = true) (hpc : PlainStr c = true) :
+    Legacy.eqNC n c = Value.eqv (den n) c.valueOf :=
+  Legacy.eqNC_eqv n c hn hc hpn hpc
+
+/-! ### counterexamples: `equal_iff` with `NoEscapes` alone is false -/
+
+/-- `["\xff"]` and `["\xfe"]` (invalid UTF-8, no escapes, array roots, accepted by the grammar):
+both strings decode to U+FFFD, the values are equal, the legacy `Equal` says "different" -/
+def cexA : Cst := .arr [.str [0xff]]
+def cexB : Cst := .arr [.str [0xfe]]
+example : NoEscapes cexA = true ∧ NoEscapes cexB = true ∧ WFC cexA = true ∧ WFC cexB = true ∧
+    cexA.valueOf.noDup = true ∧ cexB.valueOf.noDup = true ∧
+    Legacy.eqCC cexA cexB = false ∧ Value.eqv cexA.valueOf cexB.valueOf = true := by decide +kernel
+example : Legacy.equal (Cst.print cexA) (Cst.print cexB) = false ∧
+    (match parseValueOf (Cst.print cexA), parseValueOf (Cst.print cexB) with
+     | some x, some y => Value.beq x y
+     | _, _ => false) = true := by decide +kernel
+/-- with escapes the legacy `Equal` also differs from structural equality (outside the property) -/
+example : Legacy.eqCC (.arr [.str (ascii "\\u0041")]) (.arr [.str (ascii "A")]) = false ∧
+    Value.eqv (Cst.valueOf (.arr [.str (ascii "\\u0041")])) (Cst.valueOf (.arr [.str (ascii "A")])) = true := by
+  decide +kernel
+/-- duplicate-freeness of `mergeDocs`' hypothesis is needed: `{"a":1,"a":null}` -/
+def exDup : Cst := .obj [(ascii "a", .lit (ascii "1")), (ascii "a", .lit (ascii "null"))]
+example : den (pruneC exDup) = .obj [] ∧ Spec.merge .null exDup.valueOf = .obj [] := ⟨rfl, rfl⟩
+
+/-! ### the hypotheses are satisfiable -/
+
+/-- `{"a":{"b":1,"c":null},"d":[null],"e":2}` -/
+def exDoc : Cst := .obj [(ascii "a", .obj [(ascii "b", .lit (ascii "1")), (ascii "c", .lit (ascii "null"))]),
+  (ascii "d", .arr [.lit (ascii "null")]), (ascii "e", .lit (ascii "2"))]
+/-- `{"a":{"b":null,"x":{"y":null,"z":3}},"e":null,"f":{"g":null}}` -/
+def exPatch : Cst := .obj [(ascii "a", .obj [(ascii "b", .lit (ascii "null")),
+    (ascii "x", .obj [(ascii "y", .lit (ascii "null")), (ascii "z", .lit (ascii "3"))])]),
+  (ascii "e", .lit (ascii "null")), (ascii "f", .obj [(ascii "g", .lit (ascii "null"))])]
+
+example : WF (.raw exDoc) = true ∧ exPatch.valueOf.noDup = true ∧ exPatch.isNullLit = false := by decide
+example : MOK (.raw exDoc) := by simp [MOK, exDoc, Cst.isNullLit]
+example : parseCst (Cst.print exDoc) = some exDoc ∧ parseCst (Cst.print exPatch) = some exPatch ∧
+    exDoc.isNullLit = false ∧ (exPatch.isObj || exPatch.isArr) = true ∧
+    exDoc.valueOf.noDup = true := ⟨rfl, rfl, by decide, by decide, by decide⟩
+/-- the result on the example: `{"a":{"c":null,"x":{"z":3}},"d":[null],"f":{}}` -/
+example : (mergeNC false (.raw exDoc) exPatch).map den =
+    some (.obj [(ascii "a", .obj [(ascii "c", .null), (ascii "x", .obj [(ascii "z", .num (ascii "3"))])]),
+          (ascii "d", .arr [.null]), (ascii "f", .obj [])]) := rfl
+example : (match mergePatch (Cst.print exDoc) (Cst.print exPatch) with
+    | .ok out => out == ascii "{\"a\":{\"c\":null,\"x\":{\"z\":3}},\"d\":[null],\"f\":{}}"
+    | _ => false) = true := by decide +kernel
+
+/-- compatible patches: `{"a":{"b":1,"c":null},"e":2}` then `exPatch` -/
+def exP1 : Cst := .obj [(ascii "a", .obj [(ascii "b", .lit (ascii "1")), (ascii "c", .lit (ascii "null"))]),
+  (ascii "e", .lit (ascii "2"))]
+example : WF (.raw exP1) = true ∧ Spec.compatible (den (.raw exP1)) exPatch.valueOf = true := by decide
+example : (mergeNC true (.raw exP1) exPatch).map den =
+    some (.obj [(ascii "a", .obj [(ascii "b", .null), (ascii "c", .null),
+            (ascii "x", .obj [(ascii "y", .null), (ascii "z", .num (ascii "3"))])]),
+          (ascii "e", .null), (ascii "f", .obj [(ascii "g", .null)])]) := rfl
+/-- incompatible patches: `{"a":1}` then `{"a":{"b":null}}` — the Go code prunes -/
+def exQ1 : Cst := .obj [(ascii "a", .lit (ascii "1"))]
+def exQ2 : Cst := .obj [(ascii "a", .obj [(ascii "b", .lit (ascii "null"))])]
+example : Spec.compatible exQ1.valueOf exQ2.valueOf = false ∧
+    (mergeNC true (.raw exQ1) exQ2).map den = some (.obj [(ascii "a", .obj [])]) ∧
+    Spec.compose exQ1.valueOf exQ2.valueOf = .obj [(ascii "a", .obj [(ascii "b", .null)])] :=
+  ⟨by decide, rfl, rfl⟩
+
+/-- `Equal`: `{"a":1,"b":[null,"x"]}` against `{"b":[null,"x"],"a":1}` -/
+def exA : Cst := .obj [(ascii "a", .lit (ascii "1")), (ascii "b", .arr [.lit (ascii "null"), .str (ascii "x")])]
+def exB : Cst := .obj [(ascii "b", .arr [.lit (ascii "null"), .str (ascii "x")]), (ascii "a", .lit (ascii "1"))]
+example : exA.valueOf.noDup = true ∧ exB.valueOf.noDup = true ∧ NoEscapes exA = true ∧ NoEscapes exB = true ∧
+    WFC exA = true ∧ WFC exB = true ∧ CstUtf8 exA = true ∧ CstUtf8 exB = true ∧
+    Legacy.eqCC exA exB = true := by decide +kernel
+example : Legacy.equal (Cst.print exA) (Cst.print exB) = true ∧
+    parseCst (Cst.print exA) = some exA ∧ parseCst (Cst.print exB) = some exB := ⟨by decide +kernel, rfl, rfl⟩
+example : PlainN (decodeDoc [(ascii "b", .str (ascii "x"))]) = true ∧
+    WF (decodeDoc [(ascii "b", .str (ascii "x"))]) = true := by decide +kernel
 
 end C19
 end JP
+
+-- #print axioms JP.C19.merge_refines
+-- #print axioms JP.C19.mergeDocs_refines
+-- #print axioms JP.C19.pruneNulls_spec
+-- #print axioms JP.C19.doMergePatch_refines
+-- #print axioms JP.C19.mergePatch_value
+-- #print axioms JP.C19.mergeMerge_refines
+-- #print axioms JP.C19.mergeMergePatches_refines
+-- #print axioms JP.C19.composition_law
+-- #print axioms JP.C19.equal_iff_plain
+-- #print axioms JP.C19.equal_iff_partial
+-- #print axioms JP.C19.equal_texts
+-- #print axioms JP.C19.eqNC_iff
